@@ -901,6 +901,11 @@ func (h *fsHandler) handleRequest(c context.Context, ctx *RequestContext) {
 	if !ok {
 		pathStr := string(path)
 		filePath := h.root + pathStr
+		if len(filePath) == 0 {
+			// (Root "/" is kept without its trailing slash, like every root: the root
+			// directory of such an FS)
+			filePath = "/"
+		}
 		var err error
 		ff, err = h.openFSFile(filePath, mustCompress)
 
